@@ -270,10 +270,7 @@ def clause_waiters(ctx, P):
     probe's waiting list, so the end of the probe wakes it"""
     f = P.one("DnsRegistry::is_probing_done")
     tr = tracer(P, f)
-    sidx = None
-    for l in range(1, f.argc + 1):
-        if f.locals[l].get("name") == "service_name":
-            sidx = l
+    sidx = param_index(f, "service_name", "&str")
     ins = []
     for b, t in f.calls():
         if name_matches(cname(t), "HashSet::insert") and recv_is_field(P, f, b, t, "waiting_services", "Probe"):
